@@ -927,7 +927,7 @@ func (vx *Vaxis) render()
   cut "if cursor.Background != next.Background" forget pen s1: PenIs(vx, next.Foreground, cursor.Background, cursor.UnderlineColor, cursor.UnderlineStyle, cursor.Attribute, cursor.Hyperlink) && vx.tw != nil && StyleWF(cursor) && StyleWF(next.Style) && At(row, col)
   cut "if vx.caps.styledUnderlines {" forget pen s2: PenIs(vx, next.Foreground, next.Background, cursor.UnderlineColor, cursor.UnderlineStyle, cursor.Attribute, cursor.Hyperlink) && vx.tw != nil && StyleWF(cursor) && StyleWF(next.Style) && At(row, col)
   -- (inside the underline-colour section, where the parameters of the colour to show are known: they determine it)
-  cut "switch len(ps) {" @3 forget pen s2b: PenIs(vx, next.Foreground, next.Background, cursor.UnderlineColor, cursor.UnderlineStyle, cursor.Attribute, cursor.Hyperlink) && vx.tw != nil && StyleWF(cursor) && StyleWF(next.Style) && At(row, col)
+  cut "switch len(" after "ul := next.UnderlineColor" forget pen s2b: PenIs(vx, next.Foreground, next.Background, cursor.UnderlineColor, cursor.UnderlineStyle, cursor.Attribute, cursor.Hyperlink) && vx.tw != nil && StyleWF(cursor) && StyleWF(next.Style) && At(row, col)
        && vx.caps.styledUnderlines && cursor.UnderlineColor != next.UnderlineColor && (len(ps) == 0 || len(ps) == 1 || len(ps) == 3)
        && (len(ps) == 0 ==> ShownCol(vx, next.UnderlineColor) == 0)
        && (len(ps) == 1 ==> ShownCol(vx, next.UnderlineColor) == ps[0] + 16777216)
